@@ -54,6 +54,9 @@ def subjects(tier):
     for g in ("sm", "o2j"):
         for pre in PRE:
             out.append(("set", g, "plain", pre))
+    # a mapset that holds the same chart object twice (a legitimate list): every occurrence is rated once
+    out.append(("set", "sm", "shared-map", None))
+    out.append(("set", "o2j", "shared-map", None))
     # size: charts of 300 notes (thorough: 1100)
     for g in charts.GAMES:
         out.append(("map", g, "large", None))
@@ -92,6 +95,8 @@ def build(kind, g, v, pre):
                 for l in m.objs.values():
                     l.df["offset"] = l.df["offset"] + SM_SHIFT
             x.offset = SM_SHIFT
+        if v == "shared-map":
+            x.maps.append(x.maps[0])  # (after the shift above: the shared chart is shifted once)
     if pre == "stack":
         s = x.stack()
         s.offset += 0
